@@ -101,7 +101,8 @@ def complete_write_rule(rep, prog, cfg):
                 continue
             complete = []
             partial = []
-            for fb in family(prog, bs[0]):
+            from ..common import with_private_callees
+            for fb in with_private_callees(prog, bs[0]):     # the write may sit in a private helper (`write_message`)
                 for bb, t in fb.calls():
                     for nm in callee_names(t):
                         if nm in COMPLETE:
